@@ -9,7 +9,7 @@
 (* Initial states: every window (a,b), i.e. every range(a,b) incl. a > b.   *)
 (***************************************************************************)
 EXTENDS IterAbs, TLC, FiniteSets
-CONSTANTS N, Ks
+CONSTANTS N, Ks, Ks2
 
 VARIABLES rest, w
 vars == <<rest, w>>
@@ -22,7 +22,14 @@ NextF    == rest' = OpNext(rest)[2]        /\ w' = WNext(base, w)[2]
 NextB    == rest' = OpNextBack(rest)[2]    /\ w' = WNextBack(base, w)[2]
 Nth(k)   == rest' = OpNth(rest, k)[2]      /\ w' = WNth(base, w, k)[2]
 NthB(k)  == rest' = OpNthBack(rest, k)[2]  /\ w' = WNthBack(base, w, k)[2]
+\* provided methods through by_ref() (Ks2: a smaller argument set keeps the graph small)
+TakeC(k)  == rest' = OpTakeCount(rest, k)[2]    /\ w' = WTakeCount(w, k)[2]
+RTakeC(k) == rest' = OpRevTakeCount(rest, k)[2] /\ w' = WRevTakeCount(w, k)[2]
+TakeL(k)  == rest' = OpTakeLast(rest, k)[2]     /\ w' = WTakeLast(base, w, k)[2]
+Find(k)   == rest' = OpFind(rest, k)[2]         /\ w' = WNth(base, w, k)[2]
+RFind(k)  == rest' = OpRFind(rest, k)[2]        /\ w' = WNthBack(base, w, k)[2]
 Next == NextF \/ NextB \/ (\E k \in Ks : Nth(k)) \/ (\E k \in Ks : NthB(k))
+        \/ (\E k \in Ks2 : TakeC(k) \/ RTakeC(k) \/ TakeL(k) \/ Find(k) \/ RFind(k))
 Spec == Init /\ [][Next]_vars
 
 \* window representation agrees with the sequence machine, state and every result
@@ -31,6 +38,9 @@ WindowAgrees ==
   /\ OpNext(rest)[1] = WNext(base, w)[1] /\ OpNextBack(rest)[1] = WNextBack(base, w)[1]
   /\ \A k \in Ks : OpNth(rest, k)[1] = WNth(base, w, k)[1] /\ OpNthBack(rest, k)[1] = WNthBack(base, w, k)[1]
   /\ ObsLen(rest) = WLen(w)
+  /\ \A k \in Ks2 : /\ OpTakeCount(rest, k)[1] = WTakeCount(w, k)[1]
+                    /\ OpRevTakeCount(rest, k)[1] = WRevTakeCount(w, k)[1]
+                    /\ OpTakeLast(rest, k)[1] = WTakeLast(base, w, k)[1]
 \* fused: once empty, always empty and every popping operation yields None
 Fused ==
   /\ rest = <<>> => /\ OpNext(rest) = <<INone, <<>>>> /\ OpNextBack(rest) = <<INone, <<>>>>
@@ -45,6 +55,17 @@ ExactSize ==
   /\ OpNth(rest, 0) = OpNext(rest) /\ OpNthBack(rest, 0) = OpNextBack(rest)
   /\ ConsRevCollect(ConsRevCollect(rest)) = ConsCollect(rest)
   /\ (rest # <<>> => ConsLast(rest) = OpNextBack(rest)[1])
+\* the provided methods are what repeated `next` / `next_back` give (this is how core builds them)
+RECURSIVE Pops(_, _, _)
+Pops(r, m, back) == IF m = 0 THEN r ELSE Pops(IF back THEN OpNextBack(r)[2] ELSE OpNext(r)[2], m - 1, back)
+Provided ==
+  \A k \in Ks2 : LET m == MinNat(k, Len(rest)) IN
+     /\ OpTakeCount(rest, k) = <<m, Pops(rest, m, FALSE)>>
+     /\ OpRevTakeCount(rest, k) = <<m, Pops(rest, m, TRUE)>>
+     /\ OpTakeLast(rest, k)[2] = Pops(rest, m, FALSE)
+     /\ (m > 0 => OpTakeLast(rest, k)[1] = OpNext(Pops(rest, m - 1, FALSE))[1])
+     /\ OpFind(rest, k) = (IF k >= Len(rest) THEN <<INone, <<>>>> ELSE OpNext(Pops(rest, k, FALSE)))
+     /\ OpRFind(rest, k) = (IF k >= Len(rest) THEN <<INone, <<>>>> ELSE OpNextBack(Pops(rest, k, TRUE)))
 \* lengths only shrink (action property)
 Shrinks == [][Len(rest') <= Len(rest)]_vars
 =============================================================================
